@@ -170,18 +170,46 @@ rec_ptr(const wcase_t *c, int i) {
   return pat + ((c->start * 3 + (size_t)i * 131 + c->len[i] * 7) % 3001);
 }
 
+/* One VFS whose log file inode is recycled across cases (its buffer is big
+ * enough for any case, so the VFS never reallocates); rebuilt now and then to
+ * bound the journal.  Files created from scratch (O_TRUNC path) use NEWPATH. */
+#define WV_CAP 400000u
+static vfs_t *wv;
+static vinode_t *wnode;
+static int wv_uses;
+static uint8_t *wv_zero;
+
+static void
+wv_get(void) {
+  if (wv && wv_uses < 400) {
+    wv_uses++;
+    vfs_use(wv);
+    return;
+  }
+  if (wv)
+    vfs_free(wv);
+  if (!wv_zero)
+    wv_zero = calloc(1, WV_CAP);
+  wv = vfs_new();
+  vfs_use(wv);
+  vfs_put_file(wv, LOGPATH, wv_zero, WV_CAP);
+  wnode = (vinode_t *)vfs_inode(wv, vfs_lookup(wv, LOGPATH));
+  wv_uses = 1;
+}
+
 static int
 run_wcase(const wcase_t *c, fail_t *f, uint64_t *shape) {
   const uint8_t *recs[4];
   ldb_writer_t lw;
-  ldb_buffer_t dst;
+  static ldb_buffer_t dst; /* lcdb's memory sink, kept across cases */
+  static int dst_ready;
   ldb_wfile_t *wf = NULL;
   ldb_writer_t *lwp;
   ldb_slice_t s;
-  vfs_t *v;
   const vinode_t *node;
   size_t drops;
-  int i, rc;
+  int i, rc, fresh;
+  const char *path;
   uint64_t h = 1469598103934665603ull;
 
   for (i = 0; i < c->nrec; i++)
@@ -196,30 +224,37 @@ run_wcase(const wcase_t *c, fail_t *f, uint64_t *shape) {
                     (uint64_t)(w_lay.f[i].off % REF_LOG_BLOCK == 0));
   if (shape)
     *shape = h;
+  if (c->start + w_ref.n > WV_CAP)
+    vh_die("case larger than the recycled file buffer");
 
   /* 1. lcdb writer into its in-memory sink */
-  ldb_buffer_init(&dst);
+  if (!dst_ready) {
+    ldb_buffer_init(&dst);
+    ldb_buffer_grow(&dst, WV_CAP);
+    dst_ready = 1;
+  }
+  ldb_buffer_reset(&dst);
   ldb_writer_init(&lw, NULL, c->start);
   lw.dst = &dst;
   for (i = 0; i < c->nrec; i++) {
     s = ldb_slice(recs[i], c->len[i]);
     rc = ldb_writer_add_record(&lw, &s);
-    if (rc != LDB_OK) {
-      ldb_buffer_clear(&dst);
+    if (rc != LDB_OK)
       FAIL(f, "writer_status", "add_record (memory sink) returned %d", rc);
-    }
   }
   if (dst.size != w_ref.n || (dst.size && memcmp(dst.data, w_ref.p, dst.size) != 0)) {
-    size_t k = 0, m = dst.size < w_ref.n ? dst.size : w_ref.n, got = dst.size;
+    size_t k = 0, m = dst.size < w_ref.n ? dst.size : w_ref.n;
     while (k < m && dst.data[k] == w_ref.p[k])
       k++;
-    ldb_buffer_clear(&dst);
     FAIL(f, "writer_bytes_mem", "memory sink: lcdb wrote %zu bytes, reference %zu; first difference at appended byte %zu",
-         got, w_ref.n, k);
+         (size_t)dst.size, w_ref.n, k);
   }
-  ldb_buffer_clear(&dst);
 
-  /* 2. the same through a real file on the VFS (append mode when start > 0 = log reuse) */
+  /* 2. the same through a real file on the VFS.  start > 0 = log reuse: the file
+   * already holds `start` bytes and is opened for append.  New small files go
+   * through the create/truncate path like a fresh log; larger new files reuse
+   * the recycled inode in append mode (identical for the log writer, which only
+   * appends and flushes). */
   ref_buf_reset(&w_pre);
   if (c->start >= REF_LOG_HEADER) {
     const uint8_t *pr = pat + 5;
@@ -230,13 +265,16 @@ run_wcase(const wcase_t *c, fail_t *f, uint64_t *shape) {
   } else {
     ref_buf_fill(&w_pre, 0xAA, c->start);
   }
-  v = vfs_new();
-  vfs_use(v);
-  if (c->start > 0) {
-    vfs_put_file(v, LOGPATH, w_pre.p, w_pre.n);
-    rc = ldb_appendfile_create(LOGPATH, &wf);
+  wv_get();
+  fresh = (c->start == 0 && w_ref.n <= 2048);
+  path = fresh ? NEWPATH : LOGPATH;
+  if (fresh) {
+    rc = ldb_truncfile_create(path, &wf);
   } else {
-    rc = ldb_truncfile_create(LOGPATH, &wf);
+    if (c->start)
+      memcpy(wnode->data, w_pre.p, c->start);
+    wnode->len = c->start;
+    rc = ldb_appendfile_create(path, &wf);
   }
   if (rc != LDB_OK)
     vh_die("create log file: %d", rc);
@@ -251,11 +289,9 @@ run_wcase(const wcase_t *c, fail_t *f, uint64_t *shape) {
     rc = ldb_wfile_close(wf);
   ldb_wfile_destroy(wf);
   ldb_writer_destroy(lwp);
-  if (rc != LDB_OK) {
-    vfs_free(v);
+  if (rc != LDB_OK)
     FAIL(f, "writer_status", "add_record/close (file) returned %d", rc);
-  }
-  node = vfs_inode(v, vfs_lookup(v, LOGPATH));
+  node = vfs_inode(wv, vfs_lookup(wv, path));
   if (!node)
     vh_die("log file vanished");
   if (node->len != c->start + w_ref.n || (c->start && memcmp(node->data, w_pre.p, c->start) != 0) ||
@@ -263,11 +299,8 @@ run_wcase(const wcase_t *c, fail_t *f, uint64_t *shape) {
     size_t k = 0, m = node->len < c->start + w_ref.n ? node->len : c->start + w_ref.n;
     while (k < m && node->data[k] == (k < c->start ? w_pre.p[k] : w_ref.p[k - c->start]))
       k++;
-    snprintf(f->sig, sizeof(f->sig), "writer_bytes_file");
-    snprintf(f->detail, sizeof(f->detail), "file: %zu bytes, reference %zu; first difference at file offset %zu",
-             node->len, c->start + w_ref.n, k);
-    vfs_free(v);
-    return 1;
+    FAIL(f, "writer_bytes_file", "file: %zu bytes, reference %zu; first difference at file offset %zu", node->len,
+         c->start + w_ref.n, k);
   }
   n_bytes_written += w_ref.n;
 
@@ -279,27 +312,21 @@ run_wcase(const wcase_t *c, fail_t *f, uint64_t *shape) {
       ref_reclist_add(&w_expect, pat + 5, c->start - REF_LOG_HEADER);
     for (i = 0; i < c->nrec; i++)
       ref_reclist_add(&w_expect, recs[i], c->len[i]);
-    drops = lcdb_read_log(&w_got);
+    drops = lcdb_read_path(path, &w_got);
     n_roundtrip++;
     if (!reclist_equal(&w_got, &w_expect) || drops != 0) {
       describe_lens(&w_got, a, sizeof(a));
       describe_lens(&w_expect, b, sizeof(b));
-      snprintf(f->sig, sizeof(f->sig), drops ? "roundtrip_drop" : "roundtrip_records");
-      snprintf(f->detail, sizeof(f->detail), "lcdb reader returned %s with %zu drop reports; written %s", a, drops, b);
-      vfs_free(v);
-      return 1;
+      FAIL(f, drops ? "roundtrip_drop" : "roundtrip_records", "lcdb reader returned %s with %zu drop reports; written %s", a,
+           drops, b);
     }
     drops = ref_log_decode(node->data, node->len, 0, &w_refgot);
     if (!reclist_equal(&w_refgot, &w_expect) || drops != 0) {
       describe_lens(&w_refgot, a, sizeof(a));
       describe_lens(&w_expect, b, sizeof(b));
-      snprintf(f->sig, sizeof(f->sig), "refdecode_of_lcdb_bytes");
-      snprintf(f->detail, sizeof(f->detail), "reference decoder on lcdb's file: %s, %zu drops; written %s", a, drops, b);
-      vfs_free(v);
-      return 1;
+      FAIL(f, "refdecode_of_lcdb_bytes", "reference decoder on lcdb's file: %s, %zu drops; written %s", a, drops, b);
     }
   }
-  vfs_free(v);
   return 0;
 }
 
@@ -720,7 +747,7 @@ trunc_domain(void) {
       uint64_t idx, oc = 0;
       fail_t f, f2;
       char js[160];
-      if (!drv.thorough && !offset_is_boundary(F, cut, 61))
+      if (!drv.thorough && !offset_is_boundary(F, cut, 7))
         continue;
       idx = g_idx++;
       if (!drv_mine(idx))
@@ -759,7 +786,7 @@ alt_domain(void) {
     size_t off;
     vfs_release();
     for (off = 0; off < F->bytes.n && !stopped; off++) {
-      if (!drv.thorough && !offset_is_boundary(F, off, 509))
+      if (!drv.thorough && !offset_is_boundary(F, off, 101))
         continue;
       for (kind = 0; kind < ALT_NKINDS; kind++) {
         uint64_t idx = g_idx++, oc = 0;
@@ -813,13 +840,13 @@ static const size_t w1_starts[33] = {0, 1, 2, 3, 4, 5, 6, 7, 8, 9, 10, 11, 12, 1
 static int
 quick_len(size_t len) {
   size_t k;
-  if (len <= 160 || len + 20 >= MAXLEN || len % 1021 == 0)
+  if (len <= 1100 || len + 40 >= MAXLEN || len % 251 == 0)
     return 1;
   for (k = 1; k <= 3; k++) {
     size_t a = k * 32768, b = k * 32761;
-    if (len + 48 >= a && len <= a + 48)
+    if (len + 300 >= a && len <= a + 300)
       return 1;
-    if (len + 16 >= b && len <= b + 16)
+    if (len + 64 >= b && len <= b + 64)
       return 1;
   }
   return 0;
@@ -855,11 +882,12 @@ wo_domain(void) {
   size_t start;
   int li;
   for (start = 0; start < REF_LOG_BLOCK && !stopped; start++) {
-    if (!drv.thorough && !(start <= 40 || start + 40 >= REF_LOG_BLOCK || start % 257 == 0))
-      continue;
     for (li = 0; li < 6; li++) {
-      uint64_t idx = g_idx++;
+      uint64_t idx;
       wcase_t c;
+      if (!drv.thorough && lens[li] > 8 && !(start <= 40 || start + 40 >= REF_LOG_BLOCK || start % 257 == 0))
+        continue;
+      idx = g_idx++;
       if (!drv_mine(idx))
         continue;
       memset(&c, 0, sizeof(c));
@@ -887,12 +915,12 @@ seq_domain(void) {
   seq_lens[seq_nlens++] = 1;
   for (k = 32754; k <= 32762; k++) seq_lens[seq_nlens++] = k;
   for (k = 65521; k <= 65529; k++) seq_lens[seq_nlens++] = k;
-  /* quick: all sequences of <= 2 over the 20 lengths, then <= 4 over 6 of them */
+  /* quick: all sequences of <= 3 over the 20 lengths, then those of 4 over 6 of them */
   for (n = 1; n <= maxn && !stopped; n++) {
     const size_t *L = seq_lens;
     int nl = seq_nlens;
     uint64_t total = 1, t;
-    if (!drv.thorough && n > 2) {
+    if (!drv.thorough && n > 3) {
       L = qlens;
       nl = 6;
     }
@@ -1008,6 +1036,8 @@ main(int argc, char **argv) {
   }
   ref_buf_init(&w_ref);
   ref_buf_init(&w_pre);
+  ref_buf_reserve(&w_ref, WV_CAP);
+  ref_buf_reserve(&w_pre, REF_LOG_BLOCK + 64);
   ref_reclist_init(&w_expect);
   ref_reclist_init(&w_got);
   ref_reclist_init(&w_refgot);
@@ -1015,17 +1045,25 @@ main(int argc, char **argv) {
   ref_reclist_init(&t_got);
   ref_reclist_init(&t_ref);
   ref_reclist_init(&t_must);
+  {
+    ref_reclist_t *all[] = {&w_expect, &w_got, &w_refgot, &t_got, &t_ref, &t_must};
+    for (i = 0; i < 6; i++) {
+      ref_buf_reserve(&all[i]->data, WV_CAP);
+      ref_buf_reserve(&all[i]->tmp, WV_CAP);
+    }
+  }
   build_files();
 
   if (drv.replay)
     replay(drv.replay);
   else {
     if (!drv.thorough) {
-      drv_note("quick tier subsets: w1 = lengths {0..160, within 48 of k*32768, within 16 of k*32761, multiples of 1021, "
-               "98300..98320} x all 33 start offsets; wo = start offsets {0..40, 32728..32767, multiples of 257} x 6 lengths; "
-               "seq = all sequences of <=2 records over the 20 lengths plus all of <=4 over {0,1,32754,32755,32761,65529}; "
-               "trunc/alt = every offset of files <= 5000 bytes, else offsets within [-3,+10] of a fragment header, within 12 "
-               "of a block boundary or of the end, and every 61st (cuts) / 509th (alterations); crc = full domain");
+      drv_note("quick tier subsets: w1 = lengths {0..1100, within 300 of k*32768, within 64 of k*32761 (k=1..3), multiples of "
+               "251, 98280..98320} x all 33 start offsets; wo = every start offset 0..32767 x lengths {0,1,7,8} and start "
+               "offsets {0..40, 32728..32767, multiples of 257} x lengths {32761,32768}; seq = all sequences of <=3 records "
+               "over the 20 lengths plus all of 4 over {0,1,32754,32755,32761,65529}; trunc/alt = every offset of files <= "
+               "5000 bytes, else offsets within [-3,+10] of a fragment header, within 12 of a block boundary or of the end, "
+               "and every 7th (cuts) / 101st (alterations); crc = full domain");
     }
     /* CRC first: phase 0 runs before anything called ldb_crc32c_init() (portable table path) */
     crc_domain(0);
